@@ -1,9 +1,122 @@
 import Driver.Util
+import Lattigo.Model.Scaling
+import Lattigo.Model.BasisExt
+import Lattigo.Model.Decomp
 
+/-
+  C02 line protocol (all numbers decimal, vectors `a,b`, matrices rows joined by `;`, `-` empty):
+
+  div <kind> N qs gs level nb p0          -> p1|p0after            (kind: floor floorntt floormany floormanyntt
+                                                                     round roundntt roundmany roundmanyntt)
+  modupexact Q P levelQ levelP p1         -> rows (raw, unreduced)  ring.ModUpExact with GenModUpConstants(Q[:levelQ+1], P)
+  modup qtop|ptoq Q P levelQ levelP pol   -> rows                   BasisExtender.ModUpQtoP / ModUpPtoQ
+  moddown qptoq|qptop Q P levelQ levelP p1Q p1P            -> rows
+  moddownntt N Q gQ P gP levelQ levelP p1Q p1P             -> rows  ModDownQPtoQNTT
+  decomp Q P hasP levelQ levelP nbPi d p0Q prevQ           -> rowsQ|rowsP
+  mask w mask p1                          -> vec                    ring.MaskVec
+  extsmall q0 P levelP row0               -> rows                   ringqp ExtendBasisSmallNormAndCenter
+  extsmallntt N q0 g0 P gP levelP row0    -> rows                   rlwe.ExtendBasisSmallNormAndCenterNTTMontgomery
+  int floor|round qs nb xs                -> residues               integer-level spec `manyFloorInt`/`manyRoundInt`
+  int hps qs ps xs                        -> v|ys|outs              integer-level HPS with exact v
+  int pow2 w n x                          -> digits|recombined
+-/
 namespace Driver.C02
-open Driver
+open Driver Lattigo
 
-/-- stub: replaced by the property's real handler -/
-def handle (_toks : List String) : String := badOp
+def showRows (m : List (List Nat)) : String := showMat m
+
+def divOp (kind : String) (n : Nat) (qs gs : List Nat) (level nb : Nat) (p0 : List (List Nat)) : String :=
+  let T := Scaling.mkTabs n qs gs
+  let pair (p1 : List (List Nat)) (p0' : List (List Nat)) : String := s!"{showRows p1}|{showRows p0'}"
+  match kind with
+  | "floor" => pair (Scaling.divFloor qs level p0) p0
+  | "floorntt" => pair (Scaling.divFloorNTT T qs level p0) p0
+  | "round" => let r := Scaling.divRound qs level p0; pair r.2 r.1
+  | "roundntt" => pair (Scaling.divRoundNTT T qs level p0) p0
+  | "floormany" => match Scaling.divFloorMany qs level nb p0 with
+      | some p1 => pair p1 p0
+      | none => "panic"
+  | "floormanyntt" => match Scaling.divFloorManyNTT T qs level nb p0 with
+      | some p1 => pair p1 p0
+      | none => "panic"
+  | "roundmany" => match Scaling.divRoundMany qs level nb p0 with
+      | some r => pair r.2 r.1
+      | none => "panic"
+  | "roundmanyntt" => match Scaling.divRoundManyNTT T qs level nb p0 with
+      | some p1 => pair p1 p0
+      | none => "panic"
+  | _ => badOp
+
+def handle (toks : List String) : String :=
+  match toks with
+  | ["div", kind, n, qs, gs, level, nb, p0] =>
+    match n.toNat?, parseVec? qs, parseVec? gs, level.toNat?, nb.toNat?, parseMat? p0 with
+    | some n, some qs, some gs, some level, some nb, some p0 => divOp kind n qs gs level nb p0
+    | _, _, _, _, _, _ => badOp
+  | ["modupexact", Q, P, lq, lp, p1] =>
+    match parseVec? Q, parseVec? P, lq.toNat?, lp.toNat?, parseMat? p1 with
+    | some Q, some P, some lq, some lp, some p1 =>
+      showRows (BasisExt.modUpExact Q P (BasisExt.genModUpConstants (Q.take (lq + 1)) P) lp p1)
+    | _, _, _, _, _ => badOp
+  | ["modup", dir, Q, P, lq, lp, pol] =>
+    match parseVec? Q, parseVec? P, lq.toNat?, lp.toNat?, parseMat? pol with
+    | some Q, some P, some lq, some lp, some pol =>
+      if dir == "qtop" then showRows (BasisExt.modUpQtoP Q P lq lp pol)
+      else if dir == "ptoq" then showRows (BasisExt.modUpPtoQ Q P lp lq pol)
+      else badOp
+    | _, _, _, _, _ => badOp
+  | ["moddown", dir, Q, P, lq, lp, p1Q, p1P] =>
+    match parseVec? Q, parseVec? P, lq.toNat?, lp.toNat?, parseMat? p1Q, parseMat? p1P with
+    | some Q, some P, some lq, some lp, some p1Q, some p1P =>
+      if dir == "qptoq" then showRows (BasisExt.modDownQPtoQ Q P lq lp p1Q p1P)
+      else if dir == "qptop" then showRows (BasisExt.modDownQPtoP Q P lq lp p1Q p1P)
+      else badOp
+    | _, _, _, _, _, _ => badOp
+  | ["moddownntt", n, Q, gQ, P, gP, lq, lp, p1Q, p1P] =>
+    match n.toNat?, parseVec? Q, parseVec? gQ, parseVec? P, parseVec? gP, lq.toNat?, lp.toNat?, parseMat? p1Q, parseMat? p1P with
+    | some n, some Q, some gQ, some P, some gP, some lq, some lp, some p1Q, some p1P =>
+      showRows (BasisExt.modDownQPtoQNTT (Scaling.mkTabs n Q gQ) (Scaling.mkTabs n P gP) Q P lq lp p1Q p1P)
+    | _, _, _, _, _, _, _, _, _ => badOp
+  | ["decomp", Q, P, hasP, lq, lp, nbPi, d, p0Q, prevQ] =>
+    match parseVec? Q, parseVec? P, hasP.toNat?, lq.toNat?, lp.toNat?, nbPi.toNat?, d.toNat?, parseMat? p0Q, parseMat? prevQ with
+    | some Q, some P, some hasP, some lq, some lp, some nbPi, some d, some p0Q, some prevQ =>
+      match Decomp.decomposeAndSplit Q P (hasP != 0) lq lp nbPi d p0Q prevQ with
+      | some (a, b) => s!"{showRows a}|{showRows b}"
+      | none => "panic"
+    | _, _, _, _, _, _, _, _, _ => badOp
+  | ["mask", w, mask, p1] =>
+    match w.toNat?, mask.toNat?, parseVec? p1 with
+    | some w, some mask, some p1 => showVec (Decomp.maskVec w mask p1)
+    | _, _, _ => badOp
+  | ["extsmall", q0, P, lp, row0] =>
+    match q0.toNat?, parseVec? P, lp.toNat?, parseVec? row0 with
+    | some q0, some P, some lp, some row0 => showRows (BasisExt.extendSmallNorm q0 P lp row0)
+    | _, _, _, _ => badOp
+  | ["extsmallntt", n, q0, g0, P, gP, lp, row0] =>
+    match n.toNat?, q0.toNat?, g0.toNat?, parseVec? P, parseVec? gP, lp.toNat?, parseVec? row0 with
+    | some n, some q0, some g0, some P, some gP, some lp, some row0 =>
+      showRows (BasisExt.extendSmallNormNTTMont (NTT.mkTables n q0 (2 * n) g0) (Scaling.mkTabs n P gP) P lp row0)
+    | _, _, _, _, _, _, _ => badOp
+  | ["int", "floor", qs, nb, xs] =>
+    match parseVec? qs, nb.toNat?, parseVec? xs with
+    | some qs, some nb, some xs => showVec (Scaling.manyFloorInt nb qs xs)
+    | _, _, _ => badOp
+  | ["int", "round", qs, nb, xs] =>
+    match parseVec? qs, nb.toNat?, parseVec? xs with
+    | some qs, some nb, some xs => showVec (Scaling.manyRoundInt nb qs xs)
+    | _, _, _ => badOp
+  | ["int", "hps", qs, ps, xs] =>
+    match parseVec? qs, parseVec? ps, parseVec? xs with
+    | some qs, some ps, some xs =>
+      let ys := BasisExt.hpsY qs xs
+      let v := BasisExt.hpsV qs ys
+      s!"{v}|{showVec ys}|{showVec (ps.map fun p => BasisExt.hpsOut qs ys v p)}"
+    | _, _, _ => badOp
+  | ["int", "pow2", w, n, x] =>
+    match w.toNat?, n.toNat?, x.toNat? with
+    | some w, some n, some x =>
+      s!"{showVec ((List.range n).map fun j => Decomp.pow2Digit w j x)}|{Decomp.pow2Recombine w n x}"
+    | _, _, _ => badOp
+  | _ => badOp
 
 end Driver.C02
